@@ -147,8 +147,7 @@ Definition pipeline (invert implicit_temp explicit_stage : bool) (strat : N) (ho
 Definition t_result (show_ex : bool) (T : its) : tok :=
   L [tits T; if show_ex then t_explicit T (explicit_h T) else L []].
 
-Definition t_strategy (explicit_stage : bool) (host : hostg) (p : prepared) (strat : N) : tok :=
-  let raw := raw_of strat host p in
+Definition t_strategy_raw (explicit_stage : bool) (host : hostg) (p : prepared) (strat : N) (raw : list mapping) : tok :=
   let kept := prune (p_rc p) raw in
   let gl := flat_map (glue_all strat (p_flag p) host (p_rc p) (p_l p)) kept in
   let crashed := explicit_stage && existsb (fun T => match explicit_h T with None => true | Some _ => false end) gl in
@@ -156,6 +155,8 @@ Definition t_strategy (explicit_stage : bool) (host : hostg) (p : prepared) (str
   L [tnat (length raw); tnat (length kept);
      tnat (if (1 <? length raw)%nat then length (rule_auts (p_rc p)) else 0%nat);
      tnat (length gl); tset (t_result show_ex) gl; tbool crashed].
+Definition t_strategy (explicit_stage : bool) (host : hostg) (p : prepared) (strat : N) : tok :=
+  t_strategy_raw explicit_stage host p strat (raw_of strat host p).
 
 (** non-negative hydrogen counts: the domain on which [Z.to_N] in the conversion is faithful *)
 Definition hc_okb (host : hostg) (p : prepared) : bool :=
@@ -167,12 +168,23 @@ Definition hc_okb (host : hostg) (p : prepared) : bool :=
     list, pattern nodes among the rule nodes.  Evaluated on every writing whose pattern has no explicit X-H bond. *)
 Definition closedb (rc : its) : bool :=
   forallb (fun e : N * N * iedge => let '(a, b, _) := e in LGraph.mem a (node_ids rc) && LGraph.mem b (node_ids rc)) (gedges rc).
-Definition side_okb (host : hostg) (p : prepared) : bool :=
+(** the exhaustive enumeration of a writing; the run function computes it once and shares it between the observable of
+    the exhaustive strategy and the premise monitor ([raw_of_enum], [side_okb_with]; proof/C05_Order.v shows that this is
+    what [raw_of 0] and [side_okb] compute) *)
+Definition all_enum (host : hostg) (p : prepared) : list mapping :=
+  let H := host_c06 host in let P := pat_c06 (p_pat p) in monos_on' H P (node_ids H) (node_ids P).
+Definition raw_of_enum (it : list mapping) : list mapping :=
+  if (DEFAULT_THRESHOLD <? C06_Model.lenN it)%N then [] else it.
+Definition raw_shared (it : list mapping) (strat : N) (host : hostg) (p : prepared) : list mapping :=
+  if N.eqb strat 0 then raw_of_enum it else raw_of strat host p.
+
+Definition side_okb_with (it : list mapping) (host : hostg) (p : prepared) : bool :=
   let H := host_c06 host in let P := pat_c06 (p_pat p) in
   negb (p_flag p) && C06_Model.gwfb H && C06_Model.gwfb P
-  && (C06_Model.lenN (monos_on' H P (node_ids H) (node_ids P)) <=? DEFAULT_THRESHOLD)%N
+  && (C06_Model.lenN it <=? DEFAULT_THRESHOLD)%N
   && nodupb (node_ids (p_rc p)) && simple_edgesb (gedges (p_rc p)) && closedb (p_rc p)
   && forallb (fun u => LGraph.mem u (node_ids (p_rc p))) (node_ids (p_pat p)).
+Definition side_okb (host : hostg) (p : prepared) : bool := side_okb_with (all_enum host p) host p.
 
 (** the limit-free component-aware computation and its longest intermediate list (= [comp_unl] / [comp_bound] of
     proof/C06_Comp.v, restated here so that the run function can evaluate the premise of the set-level theorem for the
@@ -205,9 +217,10 @@ Section Bound.
                (map (fun pc => C06_Model.lenN (c_percc_of H pc)) (C06_Model.comps P)).
 End Bound.
 
-Definition side_okb_c (host : hostg) (p : prepared) : bool :=
+Definition side_okb_c_with (it : list mapping) (host : hostg) (p : prepared) : bool :=
   let H := host_c06 host in let P := pat_c06 (p_pat p) in
-  side_okb host p && (c_comp_bound (monos_on' H P) true H P <=? DEFAULT_THRESHOLD)%N.
+  side_okb_with it host p && (c_comp_bound (monos_on' H P) true H P <=? DEFAULT_THRESHOLD)%N.
+Definition side_okb_c (host : hostg) (p : prepared) : bool := side_okb_c_with (all_enum host p) host p.
 
 Definition t_variant (invert implicit_temp explicit_stage : bool) (strats : list N) (v : hostg * its) : tok :=
   match prepare invert implicit_temp (snd v) with
@@ -218,6 +231,17 @@ Definition t_variant (invert implicit_temp explicit_stage : bool) (strats : list
          tlist (t_strategy explicit_stage (fst v) p) strats]
   end.
 
+(** the same value with the exhaustive enumeration evaluated once per writing ([t_variant_shared_eq] in proof/C05_Order.v) *)
+Definition t_variant_shared (invert implicit_temp explicit_stage : bool) (strats : list N) (v : hostg * its) : tok :=
+  match prepare invert implicit_temp (snd v) with
+  | None => L [I (-1)]
+  | Some p =>
+      let it := all_enum (fst v) p in
+      L [trc (negb implicit_temp) (p_rc p); tbool (p_flag p); tmolg (p_pat p);
+         tbool (hc_okb (fst v) p && wf_rcb (p_rc p) && wf_hostb (fst v) && (p_flag p || side_okb_c_with it (fst v) p));
+         tlist (fun s => t_strategy_raw explicit_stage (fst v) p s (raw_shared it s (fst v) p)) strats]
+  end.
+
 (** one case = one (template, substrate) pair written in several ways; see harness/props/C05.py *)
 Definition run_c05 (invert implicit_temp explicit_stage : bool) (strats : list N) (vs : list (hostg * its)) : tok :=
-  tlist (t_variant invert implicit_temp explicit_stage strats) vs.
+  tlist (t_variant_shared invert implicit_temp explicit_stage strats) vs.
